@@ -1,1 +1,88 @@
-From RV Require Import Base.Prelude.
+(* C18 — Inflights window is a bounded FIFO under resizing.
+   Only pinned statements; proofs live in M/InflightsProofs.v. *)
+From RV Require Import Base.Prelude M.Inflights M.InflightsProofs.
+
+(* Every operation, from every state satisfying the representation invariant
+   (add only when not full), succeeds, keeps the invariant and commutes with
+   the bounded-FIFO specification [sstep] under the abstraction [abs_state]. *)
+Theorem C18_step_refines :
+  forall s o, Inv s -> (forall x, o = OAdd x -> full s = false) ->
+    exists s', step s o = Ok s' /\ Inv s' /\ abs_state s' = sstep (abs_state s) o.
+Proof. exact step_refines. Qed.
+Print Assumptions C18_step_refines.
+
+(* Every history from every initial capacity: the run never panics, count and
+   fullness match the FIFO model, and the tracked sequence is the model's. *)
+Theorem C18_history :
+  forall c ops, valid_hist (snew c) ops ->
+    exists s, run (new c) ops = Ok s /\ Inv s /\
+              abs_state s = fold_left sstep ops (snew c) /\
+              count s = length (q (fold_left sstep ops (snew c))) /\
+              full s = sfull (fold_left sstep ops (snew c)).
+Proof. exact inflights_history. Qed.
+Print Assumptions C18_history.
+
+(* add on a full window is the documented panic, nothing else *)
+Theorem C18_add_full_panics :
+  forall s x, full s = true -> add s x = Panic site_add_full.
+Proof. exact add_full_panics. Qed.
+Print Assumptions C18_add_full_panics.
+
+(* freeing removes exactly the longest prefix not greater than [to] *)
+Theorem C18_free_to_prefix :
+  forall f to, exists removed,
+    q f = removed ++ q (sstep f (OFreeTo to)) /\
+    Forall (fun b => (b <= to)%N) removed /\
+    match q (sstep f (OFreeTo to)) with [] => True | b :: _ => (to < b)%N end.
+Proof. exact free_to_prefix. Qed.
+Print Assumptions C18_free_to_prefix.
+
+(* with indexes added in increasing order free_first_one pops exactly the head *)
+Theorem C18_free_first_pops :
+  forall f, incr (q f) -> q (sstep f OFreeFirst) = tl (q f).
+Proof. exact free_first_pops. Qed.
+Print Assumptions C18_free_first_pops.
+
+Theorem C18_incr_preserved :
+  forall f o, incr (q f) ->
+    match o with OAdd x => forall b, In b (q f) -> (b < x)%N | _ => True end ->
+    incr (q (sstep f o)).
+Proof. exact incr_preserved. Qed.
+Print Assumptions C18_incr_preserved.
+
+(* a reduced capacity governs fullness at once and becomes the capacity no
+   later than when the window drains *)
+Theorem C18_shrink_governs_full :
+  forall f c, c < fcap f -> length (q f) <= fcap f ->
+    sfull (sstep f (OSetCap c)) = (c <=? length (q f)).
+Proof. exact shrink_governs_full. Qed.
+Print Assumptions C18_shrink_governs_full.
+
+Theorem C18_shrink_applied_on_drain :
+  forall f c o, pending f = Some c ->
+    (o = OReset \/ (exists to, o = OFreeTo to) \/ o = OFreeFirst) ->
+    q (sstep f o) = [] -> q f <> [] ->
+    fcap (sstep f o) = c /\ pending (sstep f o) = None.
+Proof. exact shrink_applied_on_drain. Qed.
+Print Assumptions C18_shrink_applied_on_drain.
+
+(* no tracked index is lost, duplicated or reordered by resizing / releasing *)
+Theorem C18_no_loss_set_cap : forall f c, q (sstep f (OSetCap c)) = q f.
+Proof. exact no_loss_set_cap. Qed.
+Print Assumptions C18_no_loss_set_cap.
+
+Theorem C18_no_loss_maybe_free : forall f, sstep f OMaybeFree = f.
+Proof. exact no_loss_maybe_free. Qed.
+Print Assumptions C18_no_loss_maybe_free.
+
+Theorem C18_add_appends : forall f x, q (sstep f (OAdd x)) = q f ++ [x].
+Proof. exact add_appends. Qed.
+Print Assumptions C18_add_appends.
+
+(* non-vacuity: a wrapped ring with a pending smaller capacity *)
+Theorem C18_nonvacuous :
+  exists s, run (new 3) [OAdd 1%N; OAdd 2%N; OAdd 3%N; OFreeTo 2%N; OAdd 4%N; OSetCap 2] = Ok s
+            /\ start s = 2 /\ count s = 2 /\ abs s = [3%N; 4%N] /\ incoming_cap s = Some 2
+            /\ full s = true.
+Proof. exact inv_wrapped_example. Qed.
+Print Assumptions C18_nonvacuous.
